@@ -16,6 +16,8 @@ use tc::{parse_snap, result_of, run_tab_with, GSnap};
 mod sys;
 #[path = "c15_sys.rs"]
 mod wiretap;
+#[path = "c15_im.rs"]
+mod imtap;
 
 const RULE: &str = "a case is one op history on a fresh real session table (1-4 sessions added, local ids taken from get_next_sess_id, allocators positioned at 1/2/65534/65535/random/onto live ids; then a state-aware random mix of initiate, exchange drop, received messages that open responder exchanges near the allocator position, accept, new sends, retransmissions with identical arguments, matching/mismatching acks, session add/remove, virtual time); non-trivial = the history contains an allocator skip over a live id or a retransmission (rt 1); distinct = by op list";
 
@@ -207,18 +209,34 @@ fn gen_sys(id: u64, r: &mut Rng) -> (String, Vec<String>) {
     let kind = format!("sys lat={}", *r.pick(&[0u64, 2, 5, 5, 20]));
     let mut ops: Vec<String> = Vec::new();
     let first = if id % 2 == 0 { "pase" } else { "case" };
+    // every fourth CASE handshake: Sigma2 or Sigma3 is lost once or twice and the responder's (`d`) / initiator's (`c`)
+    // operational certificate is replaced (UpdateNOC) before the retransmission - the Sigma2 / Sigma3 builders read
+    // the node's fabric when they run
+    let upd = |r: &mut Rng| -> String {
+        let sched = *r.pick(&["d.x", "d.x.x", "d.d.x", "d.d.x.x", "d.x.d.x"]);
+        format!("hs case sched={} upd={}:{}", sched, *r.pick(&[30u64, 100, 200, 300, 360, 500, 800]), if r.chance(1, 2) { "d" } else { "c" })
+    };
+    if first == "case" && id % 8 == 1 {
+        ops.push(upd(r));
+    }
     ops.push(format!("hs {} sched={}", first, gen_sched(r)));
     // the responder's first reply is lost, the initiator's retransmission gets through
     let pat = *r.pick(&["d.x", "d.x.d", "d.x.d.x", "x.d.x", "d.d.x.x"]);
     for _ in 0..r.range(1, 3) {
         let sched = if r.chance(1, 2) { pat.to_string() } else { gen_sched(r) };
+        // every fifth traffic op: the builder of one request is NOT idempotent
+        let n = r.range(1, 3);
+        let flaky = if r.chance(1, 5) { format!(" flaky={}", r.below(n)) } else { String::new() };
         if r.chance(2, 3) {
-            ops.push(format!("rr n={} sched={}", r.range(1, 4), sched));
+            ops.push(format!("rr n={} sched={}{}", n, sched, flaky));
         } else {
-            ops.push(format!("rep n={} sched={}", r.range(1, 3), sched));
+            ops.push(format!("rep n={} sched={}{}", n, sched, flaky));
         }
     }
     if r.chance(1, 2) {
+        if r.chance(1, 4) {
+            ops.push(upd(r));
+        }
         ops.push(format!("hs case sched={}", gen_sched(r)));
         ops.push(format!("rr n={} sched={}", r.range(1, 3), if r.chance(1, 2) { pat.to_string() } else { gen_sched(r) }));
         if r.chance(1, 2) {
@@ -229,10 +247,70 @@ fn gen_sys(id: u64, r: &mut Rng) -> (String, Vec<String>) {
     (kind, ops)
 }
 
+const IM_RULE: &str = "sys im=1 cases (wire tap over the REAL Interaction Model): a real device (InteractionModel with the reporter task + Responder, harness cluster with integer attributes and 700-byte strings whose handler returns the LIVE value) and a real controller (ImClient subscribe / read, ReportDataHandler) on a CASE session established by a real handshake; ops: subscribe (wildcard = chunked priming | list), change + reporter report, read (chunked | short), each under a per-datagram schedule that loses / duplicates / delays the IM's own messages (ReportData chunks, SubscribeResponse, StatusResponse, requests) WHILE the attribute is changed again between the first transmission and the retransmission (mid=<ms>:<attr>:<val>); the complete wire log goes to the same oracle: a repeated (sender, session, counter) must carry identical bytes; non-trivial = a datagram of an IM message was dropped / duplicated / delayed and the attribute changed during the op";
+
+/// the patterns that lose the k-th datagram of the op once or twice (k = 0: the first message of the op,
+/// i.e. the reporter's ReportData for `chg`, the request for `sub` / `read`; k = 1, 2, …: the chunks / responses)
+fn gen_im_sched(r: &mut Rng) -> String {
+    if r.chance(1, 4) {
+        return gen_sched(r);
+    }
+    let k = r.below(6) as usize;
+    let mut v: Vec<String> = (0..k).map(|_| "d".to_string()).collect();
+    v.push("x".into());
+    if r.chance(1, 3) {
+        v.push("x".into());
+    }
+    if r.chance(1, 3) {
+        v.push(if r.chance(1, 2) { "u".into() } else { format!("l{}", r.range(50, 700)) });
+    }
+    v.join(".")
+}
+
+fn gen_mid(r: &mut Rng) -> String {
+    let n = r.range(1, 3);
+    let mut t = 0;
+    let v: Vec<String> = (0..n)
+        .map(|_| {
+            // around the first retransmission (~330-420 ms after the first transmission) and the second
+            t += *r.pick(&[20u64, 60, 150, 250, 300, 340, 500, 800]);
+            format!("{}:{}:{}", t, *r.pick(&[0u32, 0, 1, 3]), r.range(100, 250))
+        })
+        .collect();
+    v.join(",")
+}
+
+fn gen_im(r: &mut Rng) -> (String, Vec<String>) {
+    let kind = format!("sys im=1 lat={}", *r.pick(&[0u64, 2, 5, 20]));
+    let mut ops: Vec<String> = vec!["hs sched=".into()];
+    let sel = |r: &mut Rng| if r.chance(1, 2) { "w" } else { "l" };
+    if r.chance(1, 4) {
+        ops.push(format!("read sel={} sched={} mid={}", sel(r), gen_im_sched(r), gen_mid(r)));
+    }
+    ops.push(format!("sub min=0 max={} sel={} sched={} mid={}", r.range(5, 60), sel(r), gen_im_sched(r), gen_mid(r)));
+    for _ in 0..r.range(1, 3) {
+        if r.chance(3, 4) {
+            ops.push(format!("chg a={} v={} wait={} sched={} mid={}", *r.pick(&[0u32, 0, 1, 3]), r.range(20, 99), r.range(1500, 6000), gen_im_sched(r), gen_mid(r)));
+        } else {
+            ops.push(format!("read sel={} sched={} mid={}", sel(r), gen_im_sched(r), gen_mid(r)));
+        }
+    }
+    ops.push("tap".into());
+    (kind, ops)
+}
+
+fn run_any_sys(out: &mut Out, kind: &str, ops: &[String]) {
+    if kind.split_whitespace().any(|w| w == "im=1") {
+        imtap::run_sys(out, kind, ops);
+    } else {
+        wiretap::run_sys(out, kind, ops);
+    }
+}
+
 pub fn gen(a: &Args) -> String {
     let mut r = Rng::new(a.seed);
     let mut out = Out::default();
-    out.buf.push_str(&format!("#rule {} || {}\n", RULE, SYS_RULE));
+    out.buf.push_str(&format!("#rule {} || {} || {}\n", RULE, SYS_RULE, IM_RULE));
     let n_cases = if a.thorough { 60000 } else { 5000 };
     for id in 0..n_cases {
         let mut cr = r.fork();
@@ -251,6 +329,15 @@ pub fn gen(a: &Args) -> String {
             out.buf.push_str("#nt\n");
         }
     }
+    // the Interaction Model's own encoders under retransmission while the attribute changes
+    let n_im = if a.thorough { 1500 } else { 120 };
+    for id in 0..n_im {
+        let mut cr = r.fork();
+        let (kind, ops) = gen_im(&mut cr);
+        out.case(n_cases + n_sys + id, &kind);
+        imtap::run_sys(&mut out, &kind, &ops);
+        out.buf.push_str("#nt\n");
+    }
     out.finish()
 }
 
@@ -260,7 +347,7 @@ pub fn replay(a: &Args) -> String {
     for c in parse_cases(&text) {
         if c.kind.starts_with("sys") {
             out.case(c.id, &c.kind);
-            wiretap::run_sys(&mut out, &c.kind, &c.ops);
+            run_any_sys(&mut out, &c.kind, &c.ops);
         } else {
             tc::run_case(&mut out, &c);
         }
